@@ -233,6 +233,52 @@ theorem duplicate_identifier_rejected :
     compileTxn .dict (mkFS .dict [] []) (.setitem 3 n) = ([], some .clash) := by
   decide
 
+/-! ### histories: `AllLoad` is an invariant of sequences of transactions with failures in between -/
+
+/-- Several transactions on one PulseStorage object, each possibly cut off by a failure at its own position
+`k`; each is compiled against the state (backend content and cache) its predecessor left. After every
+prefix of the history a new backend object lists only identifiers that load. -/
+theorem history_loadable (b : Backend) (hb : b.fixed = true) :
+    ∀ (h : List (Txn × Nat)) (fs₀ : FS) (pre : Store), view b fs₀ = some pre → AllLoad pre.get →
+      WFhistory b fs₀ h → ∀ j, ∃ s, view b (runHistory b fs₀ (h.take j)) = some s ∧ AllLoad s.get := by
+  intro h
+  induction h with
+  | nil => intro fs₀ pre hv hl _ j; exact ⟨pre, by simpa [runHistory] using hv, hl⟩
+  | cons e h ih =>
+    obtain ⟨txn, k⟩ := e
+    intro fs₀ pre hv hl hwf j
+    cases j with
+    | zero => exact ⟨pre, by simpa [runHistory] using hv, hl⟩
+    | succ j =>
+      obtain ⟨s, hs, hL⟩ := atomic b hb fs₀ pre txn hv hl (hwf.1 pre hv) k
+      simp only [List.take_succ_cons, runHistory]
+      exact ih (runTxn b fs₀ txn k) s hs hL.1 hwf.2 j
+
+/-- the same for histories of stores / overwrites of template trees, with hypotheses on the trees only: the
+front end produces a well-formed transaction each time (`collect_wf`) because the only state a PulseStorage
+carries over — its cache — stays inside the stored content at every failure position -/
+theorem history_overwrite_loadable (b : Backend) (hb : b.fixed = true) :
+    ∀ (h : List (Txn × Nat)) (fs₀ : FS) (pre : Store), view b fs₀ = some pre → AllLoad pre.get → CacheOK b fs₀ →
+      TreeHistory b fs₀ h → ∀ j, ∃ s, view b (runHistory b fs₀ (h.take j)) = some s ∧ AllLoad s.get := by
+  intro h
+  induction h with
+  | nil => intro fs₀ pre hv hl _ _ j; exact ⟨pre, by simpa [runHistory] using hv, hl⟩
+  | cons e h ih =>
+    obtain ⟨txn, k⟩ := e
+    intro fs₀ pre hv hl hc ht j
+    cases j with
+    | zero => exact ⟨pre, by simpa [runHistory] using hv, hl⟩
+    | succ j =>
+      obtain ⟨⟨top, n, hcase, hre⟩, hrest⟩ := ht
+      have hwf : WFtxn b fs₀ txn pre := by
+        have := collect_wf b fs₀ pre top n hv (hc pre hv) (hre pre hv)
+        rcases hcase with e | e <;> subst e
+        · exact this.1
+        · exact this.2
+      obtain ⟨s, hs, hL⟩ := atomic b hb fs₀ pre txn hv hl hwf k
+      simp only [List.take_succ_cons, runHistory]
+      exact ih (runTxn b fs₀ txn k) s hs hL.1 (cacheOK_tree b hb fs₀ top n txn hcase hc pre hv k) hrest j
+
 /-! ### the hypotheses are satisfiable (and the conclusion is not trivial) -/
 
 /-- overwriting a parent (4) with a new child (2) while 3 refers to the existing 1, zip backend -/
@@ -244,6 +290,13 @@ example :
     (compileTxn .zip fs₀ txn).1.length = 13 ∧
     finalStore .zip fs₀ txn pre ≠ pre := by
   decide
+
+/-- a history: storing `2[1]` fails after its first put, then `3[1]` (the same sub-template object) is stored -/
+example : TreeHistory .dict (mkFS .dict [] [])
+    [(.setitem 2 (.mk (some 2) 0 20 true false [.mk (some 1) 1 10 true false []]), 1),
+     (.setitem 3 (.mk (some 3) 2 30 true false [.mk (some 1) 1 10 true false []]), 100)] := by
+  refine ⟨⟨2, _, Or.inr rfl, ?_⟩, ⟨3, _, Or.inr rfl, ?_⟩, trivial⟩ <;>
+    intro pre _ <;> simp [Node.reusedOK, reusedOKs]
 
 example : WFtxn .dir (mkFS .dir [(1, .doc 10 [])] []) (.del 1) [(1, .doc 10 [])] := by
   rw [← wfTxnB_iff]; decide
